@@ -144,181 +144,586 @@ Proof.
     constructor; congruence.
 Qed.
 
-(* ---------- write ---------- *)
-Lemma h_write_spec fuel : forall h F rest n h' F' n' full,
-  hwf h F -> h_ro h = false -> (length rest <= fuel)%nat ->
-  h_write fuel h F rest n = (h', F', n', full) ->
-  let w := if capmode h then N.min (len rest) (len (h_wbuf h) - h_uw h) else len rest in
-  hwf h' F' /\ content h' F' = content h F ++ take w rest /\ n' = n + w /\
-  full = capmode h && (w <? len rest) /\ same_cfg h h' /\
-  (capmode h = true -> h_fo h' = h_fo h /\ h_fl h' = h_fl h /\ h_uw h' = h_uw h + w).
+(* copy(writeBuffer[unwritten:], c); unwritten += len(c) *)
+Lemma bufwrite_spec h F c :
+  hwf h F -> h_ro h = false -> h_uw h + len c <= len (h_wbuf h) ->
+  let h2 := h_set_buf h (upd (h_wbuf h) (h_uw h) c) (h_fl h) (h_uw h + len c) in
+  hwf h2 F /\ content h2 F = content h F ++ c /\ same_cfg h h2.
 Proof.
-  induction fuel as [|fuel IH]; intros h F rest n h' F' n' full W RO LE E.
+  intros W RO LE. destruct W. cbn zeta.
+  assert (LU : len (upd (h_wbuf h) (h_uw h) c) = len (h_wbuf h)) by (apply len_upd; exact LE).
+  splits.
+  - unfold h_set_buf. constructor;
+    cbn [h_fo h_pos h_seek h_wbuf h_fl h_uw h_ro h_retry h_auto h_closed]; auto.
+    + lia.
+    + rewrite LU. exact LE.
+    + rewrite LU. exact wf_buf0.
+    + intros X. congruence.
+  - unfold content, h_set_buf; cbn [h_fo h_fl h_uw h_wbuf].
+    rewrite <- app_assoc. f_equal. apply slice_upd_ext; auto.
+  - unfold h_set_buf. constructor; cbn [h_ro h_retry h_auto h_closed h_wbuf]; auto.
+Qed.
+
+(* ---------- write ---------- *)
+Lemma min_pos a b : 0 < a -> 0 < b -> 0 < N.min a b. Proof. lia. Qed.
+Lemma min_le_l a b : N.min a b <= a. Proof. lia. Qed.
+Lemma min_le_r a b : N.min a b <= b. Proof. lia. Qed.
+
+(* after flush/sync of a full buffer, or with room left: one chunk of `rest` goes into the buffer *)
+Lemma bufwrite_take h F rest avail :
+  hwf h F -> h_ro h = false -> 0 < len rest -> 0 < avail -> h_uw h + avail <= len (h_wbuf h) ->
+  let k := N.min (len rest) avail in
+  let h2 := h_set_buf h (upd (h_wbuf h) (h_uw h) (take k rest)) (h_fl h) (h_uw h + k) in
+  hwf h2 F /\ content h2 F = content h F ++ take k rest /\ same_cfg h h2 /\ 0 < k /\ k <= len rest.
+Proof.
+  intros W RO LR AV LE. cbn zeta.
+  set (k := N.min (len rest) avail).
+  assert (Kpos : 0 < k) by (apply min_pos; auto).
+  assert (Kr : k <= len rest) by apply min_le_l.
+  assert (Ka : k <= avail) by apply min_le_r.
+  assert (Lk : len (take k rest) = k) by (rewrite len_take; clear - Kr; lia).
+  assert (LEB : h_uw h + len (take k rest) <= len (h_wbuf h)) by (rewrite Lk; clear - Ka LE; lia).
+  destruct (bufwrite_spec h F (take k rest) W RO LEB) as (W2 & C2 & S2).
+  rewrite Lk in W2, C2, S2. splits; auto.
+Qed.
+
+Lemma h_write_step_spec h F rest :
+  hwf h F -> h_ro h = false -> 0 < len rest ->
+  match h_write_step h F rest with
+  | None => capmode h = true /\ len (h_wbuf h) - h_uw h = 0
+  | Some (h2, F2, k) =>
+      hwf h2 F2 /\ content h2 F2 = content h F ++ take k rest /\ same_cfg h h2 /\
+      0 < k /\ k <= len rest /\
+      (capmode h = true -> k = N.min (len rest) (len (h_wbuf h) - h_uw h) /\
+                           h_fo h2 = h_fo h /\ h_fl h2 = h_fl h /\ h_uw h2 = h_uw h + k)
+  end.
+Proof.
+  intros W RO LR. unfold h_write_step.
+  pose proof (wf_buf _ _ W RO) as BP. pose proof (wf_uw _ _ W) as UW.
+  destruct (N.eqb_spec (len (h_wbuf h) - h_uw h) 0) as [AZ|ANZ].
+  - destruct (h_retry h) eqn:RT; [destruct (h_auto h) eqn:AU|]; cbn [andb negb].
+    + (* sync *)
+      destruct (h_sync h F) as [h1 F1] eqn:ES.
+      destruct (h_sync_spec _ _ _ _ W ES) as (W1 & C1 & S1 & FO1 & U1 & RT1 & NR1).
+      destruct (RT1 RT) as [FL1 UW1].
+      assert (RO1 : h_ro h1 = false) by (destruct S1; congruence).
+      assert (LE1 : h_uw h1 + len (h_wbuf h) <= len (h_wbuf h1)) by (destruct S1; clear - UW1 sc_blen0; lia).
+      destruct (bufwrite_take h1 F1 rest (len (h_wbuf h)) W1 RO1 LR BP LE1) as (W2 & C2 & S2 & K1 & K2).
+      splits; auto.
+      * rewrite C2, C1. reflexivity.
+      * eapply same_cfg_trans; eauto.
+      * unfold capmode. rewrite RT, AU. intros; discriminate.
+    + split; auto. unfold capmode. rewrite RT, AU. reflexivity.
+    + (* flush *)
+      destruct (h_flush h F) as [h1 F1] eqn:ES.
+      destruct (h_flush_spec _ _ _ _ W ES) as (W1 & C1 & S1 & FO1 & U1 & RT1 & NR1).
+      specialize (NR1 RT).
+      assert (RO1 : h_ro h1 = false) by (destruct S1; congruence).
+      assert (LE1 : h_uw h1 + len (h_wbuf h) <= len (h_wbuf h1)) by (destruct S1; clear - NR1 sc_blen0; lia).
+      destruct (bufwrite_take h1 F1 rest (len (h_wbuf h)) W1 RO1 LR BP LE1) as (W2 & C2 & S2 & K1 & K2).
+      splits; auto.
+      * rewrite C2, C1. reflexivity.
+      * eapply same_cfg_trans; eauto.
+      * unfold capmode. rewrite RT. intros; discriminate.
+  - cbn [andb].
+    assert (AV : 0 < len (h_wbuf h) - h_uw h) by (clear - ANZ; lia).
+    assert (LE1 : h_uw h + (len (h_wbuf h) - h_uw h) <= len (h_wbuf h)) by (clear - UW; lia).
+    destruct (bufwrite_take h F rest _ W RO LR AV LE1) as (W2 & C2 & S2 & K1 & K2).
+    splits; auto.
+Qed.
+
+Lemma take_take_drop k j (l : bytes) : take k l ++ take j (drop k l) = take (k + j) l.
+Proof.
+  unfold take, drop.
+  rewrite <- (firstn_skipn (N.to_nat k) l) at 3.
+  rewrite firstn_app, firstn_firstn.
+  replace (Nat.min (N.to_nat (k + j)) (N.to_nat k)) with (N.to_nat k) by lia.
+  f_equal. rewrite firstn_length.
+  destruct (Nat.le_gt_cases (N.to_nat k) (length l)).
+  - f_equal. lia.
+  - rewrite skipn_all2 by lia. rewrite !firstn_nil. reflexivity.
+Qed.
+
+Lemma len_drop_fuel k rest fuel :
+  0 < k -> (length rest <= S fuel)%nat -> (length (drop k rest) <= fuel)%nat.
+Proof. intros. unfold drop. rewrite skipn_length. lia. Qed.
+
+Lemma capmode_same h h' : same_cfg h h' -> capmode h' = capmode h.
+Proof. intros []. unfold capmode. congruence. Qed.
+
+(* write(bs) when the buffer is never reported full: everything is appended *)
+Lemma h_write_all fuel : forall h F rest n h' F' n' full,
+  hwf h F -> h_ro h = false -> capmode h = false -> (length rest <= fuel)%nat ->
+  h_write fuel h F rest n = (h', F', n', full) ->
+  hwf h' F' /\ content h' F' = content h F ++ rest /\ n' = n + len rest /\ full = false /\ same_cfg h h'.
+Proof.
+  induction fuel as [|fuel IH]; intros h F rest n h' F' n' full W RO CM LE E.
   - assert (rest = []) by (destruct rest; simpl in LE; [auto|lia]). subst rest.
     simpl in E. assert (h' = h) by congruence. assert (F' = F) by congruence.
     assert (n' = n) by congruence. assert (full = false) by congruence. subst.
-    cbn zeta. change (len []) with 0. rewrite N.min_0_l.
-    replace (if capmode h then 0 else 0) with 0 by (destruct (capmode h); auto).
-    rewrite take_0, app_nil_r. splits; auto using same_cfg_refl; try lia.
-    all: destruct (capmode h); auto.
+    rewrite app_nil_r. change (len []) with 0. rewrite N.add_0_r. splits; auto using same_cfg_refl.
   - cbn [h_write] in E.
     destruct (N.eqb_spec (len rest) 0) as [Z|NZ].
     { assert (rest = []) by (apply len_0_nil; auto). subst rest.
       assert (h' = h) by congruence. assert (F' = F) by congruence.
       assert (n' = n) by congruence. assert (full = false) by congruence. subst.
-      cbn zeta. change (len []) with 0. rewrite N.min_0_l.
-      replace (if capmode h then 0 else 0) with 0 by (destruct (capmode h); auto).
-      rewrite take_0, app_nil_r. splits; auto using same_cfg_refl; try lia.
-      all: destruct (capmode h); auto. }
-    pose proof W as W0. destruct W.
-    specialize (wf_buf0 RO).
-    set (B := len (h_wbuf h)) in *.
-    destruct (N.eqb_spec (B - h_uw h) 0) as [AZ|ANZ].
-    + (* buffer full *)
-      destruct (h_retry h) eqn:RT; [destruct (h_auto h) eqn:AU|]; cbn [andb negb] in E.
-      * (* retryable + autosync: sync *)
-        destruct (h_sync h F) as [h1 F1] eqn:ES.
-        destruct (h_sync_spec _ _ _ _ W0 ES) as (W1 & C1 & S1 & FO1 & U1 & RT1 & NR1).
-        destruct (RT1 RT) as [FL1 UW1].
-        set (k := N.min (len rest) B) in E.
-        set (h2 := h_set_buf h1 (upd (h_wbuf h1) (h_uw h1) (take k rest)) (h_fl h1) (h_uw h1 + k)) in E.
-        pose proof S1 as S1'. destruct S1.
-        assert (Lk : len (take k rest) = k) by (rewrite len_take; unfold k; lia).
-        assert (Kpos : 0 < k) by (unfold k; lia).
-        assert (KB : k <= B) by (unfold k; lia).
-        assert (W2 : hwf h2 F1).
-        { destruct W1. unfold h2, h_set_buf. constructor;
-          cbn [h_fo h_pos h_seek h_wbuf h_fl h_uw h_ro h_retry h_auto h_closed]; auto; try lia;
-          try (rewrite len_upd by (rewrite Lk; lia); lia); try congruence;
-          try (intros X; rewrite sc_ro0 in X; congruence). }
-        assert (C2 : content h2 F1 = content h F ++ take k rest).
-        { rewrite <- C1. unfold content, h2, h_set_buf; cbn [h_fo h_fl h_uw h_wbuf].
-          rewrite <- app_assoc. f_equal.
-          replace (h_uw h1 + k) with (h_uw h1 + len (take k rest)) by (rewrite Lk; reflexivity).
-          rewrite slice_upd_ext by (rewrite ?Lk; destruct W1; lia). reflexivity. }
-        assert (S2 : same_cfg h h2).
-        { unfold h2, h_set_buf. constructor; cbn [h_ro h_retry h_auto h_closed h_wbuf]; auto.
-          rewrite len_upd by (rewrite Lk; lia). auto. }
-        assert (LE2 : (length (drop k rest) <= fuel)%nat).
-        { unfold drop. rewrite skipn_length. unfold len in *. lia. }
-        assert (RO2 : h_ro h2 = false) by (destruct S2; congruence).
-        specialize (IH h2 F1 (drop k rest) (n + k) h' F' n' full W2 RO2 LE2 E).
-        assert (CM : capmode h = false) by (unfold capmode; rewrite RT, AU; reflexivity).
-        assert (CM2 : capmode h2 = false).
-        { unfold capmode. destruct S2. rewrite sc_retry1, sc_auto1, RT, AU. reflexivity. }
-        rewrite CM2 in IH. cbn zeta in IH. rewrite CM. cbn zeta.
-        destruct IH as (W' & C' & N' & FU' & S' & _).
-        splits; auto.
-        -- rewrite C', C2. rewrite <- app_assoc. f_equal.
-           rewrite (take_ge (len rest)) by lia.
-           rewrite (take_ge (len (drop k rest))) by lia. apply take_drop_cat.
-        -- rewrite N', len_drop. lia.
-        -- eapply same_cfg_trans; eauto.
-        -- intros; discriminate.
-      * (* retryable without autosync: ErrBufferFull *)
-        assert (h' = h) by congruence. assert (F' = F) by congruence.
-        assert (n' = n) by congruence. assert (full = true) by congruence. subst.
-        assert (CM : capmode h = true) by (unfold capmode; rewrite RT, AU; reflexivity).
-        rewrite CM. cbn zeta. fold B. replace (N.min (len rest) (B - h_uw h)) with 0 by lia.
-        rewrite take_0, app_nil_r. splits; auto using same_cfg_refl; try lia.
-        cbn [andb]. symmetry. apply N.ltb_lt. lia.
-      * (* not retryable: flush *)
-        replace (B - h_uw h =? 0) with true in E by (symmetry; apply N.eqb_eq; auto).
-        cbn [andb] in E.
-        destruct (h_flush h F) as [h1 F1] eqn:ES.
-        destruct (h_flush_spec _ _ _ _ W0 ES) as (W1 & C1 & S1 & FO1 & U1 & RT1 & NR1).
-        specialize (NR1 RT).
-        set (k := N.min (len rest) B) in E.
-        set (h2 := h_set_buf h1 (upd (h_wbuf h1) (h_uw h1) (take k rest)) (h_fl h1) (h_uw h1 + k)) in E.
-        pose proof S1 as S1'. destruct S1.
-        assert (Lk : len (take k rest) = k) by (rewrite len_take; unfold k; lia).
-        assert (Kpos : 0 < k) by (unfold k; lia).
-        assert (KB : k <= B) by (unfold k; lia).
-        assert (FL1 : h_fl h1 = 0) by lia.
-        assert (W2 : hwf h2 F1).
-        { destruct W1. unfold h2, h_set_buf. constructor;
-          cbn [h_fo h_pos h_seek h_wbuf h_fl h_uw h_ro h_retry h_auto h_closed]; auto; try lia;
-          try (rewrite len_upd by (rewrite Lk; lia); lia); try congruence;
-          try (intros X; rewrite sc_ro0 in X; congruence). }
-        assert (C2 : content h2 F1 = content h F ++ take k rest).
-        { rewrite <- C1. unfold content, h2, h_set_buf; cbn [h_fo h_fl h_uw h_wbuf].
-          rewrite <- app_assoc. f_equal.
-          replace (h_uw h1 + k) with (h_uw h1 + len (take k rest)) by (rewrite Lk; reflexivity).
-          rewrite slice_upd_ext by (rewrite ?Lk; destruct W1; lia). reflexivity. }
-        assert (S2 : same_cfg h h2).
-        { unfold h2, h_set_buf. constructor; cbn [h_ro h_retry h_auto h_closed h_wbuf]; auto.
-          rewrite len_upd by (rewrite Lk; lia). auto. }
-        assert (LE2 : (length (drop k rest) <= fuel)%nat).
-        { unfold drop. rewrite skipn_length. unfold len in *. lia. }
-        assert (RO2 : h_ro h2 = false) by (destruct S2; congruence).
-        specialize (IH h2 F1 (drop k rest) (n + k) h' F' n' full W2 RO2 LE2 E).
-        assert (CM : capmode h = false) by (unfold capmode; rewrite RT; reflexivity).
-        assert (CM2 : capmode h2 = false).
-        { unfold capmode. destruct S2. rewrite sc_retry1, RT. reflexivity. }
-        rewrite CM2 in IH. cbn zeta in IH. rewrite CM. cbn zeta.
-        destruct IH as (W' & C' & N' & FU' & S' & _).
-        splits; auto.
-        -- rewrite C', C2. rewrite <- app_assoc. f_equal.
-           rewrite (take_ge (len rest)) by lia.
-           rewrite (take_ge (len (drop k rest))) by lia. apply take_drop_cat.
-        -- rewrite N', len_drop. lia.
-        -- eapply same_cfg_trans; eauto.
-        -- intros; discriminate.
-    + (* room in the buffer *)
-      replace (B - h_uw h =? 0) with false in E by (symmetry; apply N.eqb_neq; auto).
-      cbn [andb] in E.
-      set (k := N.min (len rest) (B - h_uw h)) in E.
-      set (h2 := h_set_buf h (upd (h_wbuf h) (h_uw h) (take k rest)) (h_fl h) (h_uw h + k)) in E.
-      assert (Lk : len (take k rest) = k) by (rewrite len_take; unfold k; lia).
-      assert (Kpos : 0 < k) by (unfold k; lia).
-      assert (KB : h_uw h + k <= B) by (unfold k; lia).
-      assert (W2 : hwf h2 F).
-      { unfold h2, h_set_buf. constructor;
-        cbn [h_fo h_pos h_seek h_wbuf h_fl h_uw h_ro h_retry h_auto h_closed]; auto; try lia;
-        try (rewrite len_upd by (rewrite Lk; fold B; lia); fold B; lia); try congruence. }
-      assert (C2 : content h2 F = content h F ++ take k rest).
-      { unfold content, h2, h_set_buf; cbn [h_fo h_fl h_uw h_wbuf].
-        rewrite <- app_assoc. f_equal.
-        replace (h_uw h + k) with (h_uw h + len (take k rest)) by (rewrite Lk; reflexivity).
-        rewrite slice_upd_ext by (rewrite ?Lk; fold B; lia). reflexivity. }
-      assert (S2 : same_cfg h h2).
-      { unfold h2, h_set_buf. constructor; cbn [h_ro h_retry h_auto h_closed h_wbuf]; auto.
-        rewrite len_upd by (rewrite Lk; fold B; lia). auto. }
-      assert (LE2 : (length (drop k rest) <= fuel)%nat).
-      { unfold drop. rewrite skipn_length. unfold len in *. lia. }
+      rewrite app_nil_r. change (len []) with 0. rewrite N.add_0_r. splits; auto using same_cfg_refl. }
+    assert (LR : 0 < len rest) by (clear - NZ; lia).
+    pose proof (h_write_step_spec h F rest W RO LR) as ST.
+    destruct (h_write_step h F rest) as [[[h2 F2] k]|].
+    + destruct ST as (W2 & C2 & S2 & K1 & K2 & _).
       assert (RO2 : h_ro h2 = false) by (destruct S2; congruence).
-      specialize (IH h2 F (drop k rest) (n + k) h' F' n' full W2 RO2 LE2 E).
-      assert (CM2 : capmode h2 = capmode h).
-      { unfold capmode. destruct S2. rewrite sc_retry0, sc_auto0. reflexivity. }
-      rewrite CM2 in IH. cbn zeta in IH. cbn zeta.
-      assert (B2 : len (h_wbuf h2) = B) by (destruct S2; auto).
+      assert (CM2 : capmode h2 = false) by (rewrite (capmode_same _ _ S2); auto).
+      pose proof (len_drop_fuel k rest fuel K1 LE) as LE2.
+      destruct (IH h2 F2 (drop k rest) (n + k) h' F' n' full W2 RO2 CM2 LE2 E) as (W' & C' & N' & FU' & S').
+      splits; auto.
+      * rewrite C', C2, <- app_assoc. f_equal. apply take_drop_cat.
+      * rewrite N', len_drop. clear - K2. lia.
+      * eapply same_cfg_trans; eauto.
+    + destruct ST as [CM' _]. congruence.
+Qed.
+
+(* write(bs) with retryableSync and no autoSync: stops when the buffer is full *)
+Lemma h_write_cap fuel : forall h F rest n h' F' n' full,
+  hwf h F -> h_ro h = false -> capmode h = true -> (length rest <= fuel)%nat ->
+  h_write fuel h F rest n = (h', F', n', full) ->
+  let w := N.min (len rest) (len (h_wbuf h) - h_uw h) in
+  hwf h' F' /\ content h' F' = content h F ++ take w rest /\ n' = n + w /\
+  full = (w <? len rest) /\ same_cfg h h' /\
+  h_fo h' = h_fo h /\ h_fl h' = h_fl h /\ h_uw h' = h_uw h + w /\ F' = F.
+Proof.
+  induction fuel as [|fuel IH]; intros h F rest n h' F' n' full W RO CM LE E.
+  - assert (rest = []) by (destruct rest; simpl in LE; [auto|lia]). subst rest.
+    simpl in E. assert (h' = h) by congruence. assert (F' = F) by congruence.
+    assert (n' = n) by congruence. assert (full = false) by congruence. subst.
+    cbn zeta. change (len []) with 0. rewrite N.min_0_l, take_0, app_nil_r, !N.add_0_r.
+    splits; auto using same_cfg_refl.
+  - cbn [h_write] in E.
+    destruct (N.eqb_spec (len rest) 0) as [Z|NZ].
+    { assert (rest = []) by (apply len_0_nil; auto). subst rest.
+      assert (h' = h) by congruence. assert (F' = F) by congruence.
+      assert (n' = n) by congruence. assert (full = false) by congruence. subst.
+      cbn zeta. change (len []) with 0. rewrite N.min_0_l, take_0, app_nil_r, !N.add_0_r.
+      splits; auto using same_cfg_refl. }
+    assert (LR : 0 < len rest) by (clear - NZ; lia).
+    pose proof (h_write_step_spec h F rest W RO LR) as ST.
+    unfold h_write_step in E, ST.
+    destruct (N.eqb_spec (len (h_wbuf h) - h_uw h) 0) as [AZ|ANZ].
+    + (* full: ErrBufferFull *)
+      unfold capmode in CM. apply andb_prop in CM as [RT AU]. rewrite RT, AU in E. cbn [andb negb] in E.
+      assert (h' = h) by congruence. assert (F' = F) by congruence.
+      assert (n' = n) by congruence. assert (full = true) by congruence. subst.
+      cbn zeta. rewrite AZ, N.min_0_r, take_0, app_nil_r, !N.add_0_r.
+      splits; auto using same_cfg_refl. symmetry. apply N.ltb_lt. exact LR.
+    + cbn [andb] in E, ST.
+      set (k := N.min (len rest) (len (h_wbuf h) - h_uw h)) in *.
+      set (h2 := h_set_buf h (upd (h_wbuf h) (h_uw h) (take k rest)) (h_fl h) (h_uw h + k)) in *.
+      destruct ST as (W2 & C2 & S2 & K1 & K2 & _).
+      assert (RO2 : h_ro h2 = false) by (destruct S2; congruence).
+      assert (CM2 : capmode h2 = true) by (rewrite (capmode_same _ _ S2); auto).
+      pose proof (len_drop_fuel k rest fuel K1 LE) as LE2.
+      specialize (IH h2 F (drop k rest) (n + k) h' F' n' full W2 RO2 CM2 LE2 E).
+      cbn zeta in IH.
+      assert (B2 : len (h_wbuf h2) = len (h_wbuf h)) by (destruct S2; auto).
       assert (U2 : h_uw h2 = h_uw h + k) by reflexivity.
       rewrite B2, U2, len_drop in IH.
-      destruct IH as (W' & C' & N' & FU' & S' & CP').
-      destruct (capmode h) eqn:CM.
-      * fold B.
-        assert (EQ : N.min (len rest) (B - h_uw h) = k + N.min (len rest - k) (B - (h_uw h + k)))
-          by (unfold k; lia).
-        splits; auto.
-        -- rewrite C', C2. rewrite <- app_assoc. f_equal.
-           rewrite EQ.
-           set (j := N.min (len rest - k) (B - (h_uw h + k))).
-           rewrite <- (take_drop_cat k rest) at 3.
-           rewrite take_app_ge by (rewrite Lk; lia). rewrite Lk.
-           replace (k + j - k) with j by lia. reflexivity.
-        -- rewrite N'. lia.
-        -- rewrite FU'. cbn [andb]. rewrite EQ.
-           destruct (N.ltb_spec (N.min (len rest - k) (B - (h_uw h + k))) (len rest - k));
-           destruct (N.ltb_spec (k + N.min (len rest - k) (B - (h_uw h + k))) (len rest)); auto; lia.
-        -- eapply same_cfg_trans; eauto.
-        -- intros _. destruct (CP' eq_refl) as (A1 & A2 & A3).
-           unfold h2, h_set_buf in A1, A2; cbn [h_fo h_fl] in A1, A2.
-           splits; auto. rewrite A3. lia.
-      * splits; auto.
-        -- rewrite C', C2. rewrite <- app_assoc. f_equal.
-           rewrite (take_ge (len rest)) by lia.
-           rewrite (take_ge (len rest - k)) by (rewrite len_drop; lia). apply take_drop_cat.
-        -- rewrite N'. lia.
-        -- eapply same_cfg_trans; eauto.
-        -- intros; discriminate.
+      set (j := N.min (len rest - k) (len (h_wbuf h) - (h_uw h + k))) in IH.
+      assert (J0 : j = 0) by (unfold j, k; clear; lia).
+      rewrite J0 in IH. rewrite take_0, app_nil_r, !N.add_0_r in IH.
+      destruct IH as (W' & C' & N' & FU' & S' & A1 & A2 & A3 & A4).
+      cbn zeta. splits; auto.
+      * congruence.
+      * rewrite FU'. clear - K2. destruct (N.ltb_spec 0 (len rest - k)); destruct (N.ltb_spec k (len rest)); auto; lia.
+      * eapply same_cfg_trans; eauto.
+Qed.
+
+(* ---------- Append ---------- *)
+Lemma h_append_spec h F bs h' F' x :
+  hwf h F -> h_closed h = false -> h_ro h = false -> 0 < len bs ->
+  h_append h F bs = (h', F', x) ->
+  let w := if capmode h then N.min (len bs) (len (h_wbuf h) - h_uw h) else len bs in
+  hwf h' F' /\ content h' F' = content h F ++ take w bs /\ same_cfg h h' /\
+  x = (if capmode h && (w <? len bs) then OFull (h_offset h) w else OApp (h_offset h) w) /\
+  (capmode h = true -> h_fo h' = h_fo h /\ h_fl h' = h_fl h /\ h_uw h' = h_uw h + w).
+Proof.
+  intros W CL RO LB E. unfold h_append in E. rewrite CL, RO in E.
+  replace (len bs =? 0) with false in E by (symmetry; apply N.eqb_neq; clear - LB; lia).
+  destruct (h_write (length bs) h F bs 0) as [[[h1 F1] n1] full] eqn:EW.
+  assert (h' = h1) by congruence. assert (F' = F1) by congruence. subst h1 F1.
+  assert (X : x = if full then OFull (h_offset h) n1 else OApp (h_offset h) n1) by congruence.
+  clear E. destruct (capmode h) eqn:CM; cbn zeta.
+  - destruct (h_write_cap _ _ _ _ _ _ _ _ _ W RO CM (le_n _) EW) as (W' & C' & N' & FU' & S' & A1 & A2 & A3 & _).
+    cbn zeta in *. rewrite N.add_0_l in N'. splits; auto.
+    rewrite X, FU', N'. cbn [andb]. reflexivity.
+  - destruct (h_write_all _ _ _ _ _ _ _ _ _ W RO CM (le_n _) EW) as (W' & C' & N' & FU' & S').
+    rewrite N.add_0_l in N'. splits; auto.
+    + rewrite take_all. exact C'.
+    + rewrite X, FU', N'. reflexivity.
+    + intros; discriminate.
+Qed.
+
+(* ---------- readAt ---------- *)
+Definition spec_read (D : bytes) (n off : N) : out :=
+  if len D <? off then ORead [] true
+  else let k := N.min n (len D - off) in ORead (slice D off (off + k)) (k <? n).
+
+Lemma slice_plus b i n : slice b i (i + n) = take n (drop i b).
+Proof. unfold slice. f_equal. lia. Qed.
+
+(* read entirely below fileOffset *)
+Lemma read_file_part F fo W fl uw n off :
+  fo <= len F -> off + n <= fo ->
+  take n (drop off F) = slice (take fo F ++ slice W fl uw) off (off + n) /\ len (take n (drop off F)) = n.
+Proof.
+  intros H1 H2. split.
+  - rewrite slice_app_l by (rewrite len_take; lia).
+    rewrite slice_take by lia. symmetry. apply slice_plus.
+  - rewrite len_take, len_drop. lia.
+Qed.
+
+(* read entirely at or above fileOffset *)
+Lemma read_buf_part F fo W fl uw off k :
+  fo <= len F -> fo <= off -> fl + (off - fo) + k <= uw ->
+  slice W (fl + (off - fo)) (fl + (off - fo) + k) = slice (take fo F ++ slice W fl uw) off (off + k).
+Proof.
+  intros H1 H2 H3.
+  rewrite slice_app_r by (rewrite len_take; lia). rewrite len_take.
+  replace (N.min fo (len F)) with fo by lia.
+  rewrite slice_slice by lia. f_equal; lia.
+Qed.
+
+(* read across fileOffset when the file ends at fileOffset *)
+Lemma read_cross_part F W fl uw off k :
+  off <= len F -> fl + k <= uw ->
+  drop off F ++ slice W fl (fl + k) = slice (take (len F) F ++ slice W fl uw) off (len F + k).
+Proof.
+  intros H1 H2. rewrite take_all.
+  rewrite slice_app_mid by lia. f_equal.
+  replace (len F + k - len F) with k by lia.
+  rewrite take_slice. f_equal. lia.
+Qed.
+
+Lemma h_readat_spec h F n off :
+  hwf h F -> 0 < n ->
+  h_tail h F && (off <? h_fo h) && (h_fo h <? off + n) = false ->
+  h_readat_ h F n off = spec_read (content h F) n off.
+Proof.
+  intros W NP NR. pose proof (len_content _ _ W) as LC.
+  unfold h_readat_, spec_read. rewrite LC.
+  destruct (N.ltb_spec (h_offset h) off) as [L0|L0]; [reflexivity|].
+  destruct W. unfold h_offset in *. unfold content.
+  destruct (N.ltb_spec off (h_fo h)) as [L1|L1].
+  - unfold freadat.
+    destruct (N.ltb_spec (h_fo h) (off + n)) as [L2|L2].
+    + (* across fileOffset: there is no tail *)
+      rewrite andb_true_r, andb_true_r in NR. unfold h_tail in NR. apply N.ltb_ge in NR.
+      assert (EF : len F = h_fo h) by (clear - NR wf_fo0; lia).
+      assert (ED : take n (drop off F) = drop off F) by (apply take_ge; rewrite len_drop; clear - EF L2; lia).
+      rewrite ED. rewrite len_drop.
+      replace (0 <? n - (len F - off)) with true by (symmetry; apply N.ltb_lt; clear - EF L1 L2; lia).
+      set (k2 := N.min (n - (len F - off)) (h_uw h - h_fl h - 0)).
+      assert (K2 : h_fl h + k2 <= h_uw h) by (unfold k2; clear - wf_fl0; lia).
+      assert (OF : off <= len F) by (clear - EF L1; lia).
+      pose proof (read_cross_part F (h_wbuf h) (h_fl h) (h_uw h) off k2 OF K2) as RC.
+      rewrite EF in RC.
+      replace (N.min n (h_fo h + (h_uw h - h_fl h) - off)) with (h_fo h - off + k2)
+        by (unfold k2; clear - EF L1 L2 wf_fl0; lia).
+      replace (off + (h_fo h - off + k2)) with (h_fo h + k2) by (clear - L1; lia).
+      rewrite <- RC. rewrite N.add_0_r.
+      f_equal.
+      * f_equal. destruct (N.ltb_spec 0 k2); auto.
+        rewrite slice_empty; auto. clear - H. lia.
+      * unfold k2. clear - EF L1 L2.
+        destruct (N.eqb_spec (N.min (n - (len F - off)) (h_uw h - h_fl h - 0)) (n - (len F - off)));
+        destruct (N.ltb_spec (h_fo h - off + N.min (n - (len F - off)) (h_uw h - h_fl h - 0)) n); auto; lia.
+    + (* entirely in the file *)
+      destruct (read_file_part F (h_fo h) (h_wbuf h) (h_fl h) (h_uw h) n off wf_fo0 L2) as [RF RL].
+      rewrite RL. replace (0 <? n - n) with false by (symmetry; apply N.ltb_ge; clear; lia).
+      replace (N.min n (h_fo h + (h_uw h - h_fl h) - off)) with n by (clear - L2; lia).
+      rewrite <- RF. reflexivity.
+  - (* entirely in the buffer *)
+    change (len []) with 0. rewrite N.sub_0_r.
+    replace (0 <? n) with true by (symmetry; apply N.ltb_lt; exact NP).
+    set (k := N.min n (h_uw h - h_fl h - (off - h_fo h))).
+    assert (K : h_fl h + (off - h_fo h) + k <= h_uw h) by (unfold k; clear - L0 L1 wf_fl0; lia).
+    pose proof (read_buf_part F (h_fo h) (h_wbuf h) (h_fl h) (h_uw h) off k wf_fo0 L1 K) as RB.
+    replace (N.min n (h_fo h + (h_uw h - h_fl h) - off)) with k by (unfold k; clear - L0 L1 wf_fl0; lia).
+    rewrite <- RB. cbn [app]. f_equal.
+    + destruct (N.ltb_spec 0 k); auto. rewrite slice_empty; auto. clear - H. lia.
+    + unfold k. clear.
+      destruct (N.eqb_spec (N.min n (h_uw h - h_fl h - (off - h_fo h))) n);
+      destruct (N.ltb_spec (N.min n (h_uw h - h_fl h - (off - h_fo h))) n); auto; lia.
+Qed.
+
+(* ---------- SetOffset ---------- *)
+Lemma take_content_mem F fo W fl uw off :
+  fo <= len F -> fl <= uw -> uw <= len W -> fo <= off -> off <= fo + (uw - fl) ->
+  take fo F ++ slice W fl (uw - (fo + (uw - fl) - off)) = take off (take fo F ++ slice W fl uw).
+Proof.
+  intros. rewrite take_app_ge by (rewrite len_take; lia). f_equal.
+  rewrite len_take. rewrite take_slice. f_equal. lia.
+Qed.
+
+Lemma take_content_file F fo W fl uw off :
+  fo <= len F -> off < fo ->
+  take off F ++ slice W 0 0 = take off (take fo F ++ slice W fl uw).
+Proof.
+  intros. rewrite take_app_le by (rewrite len_take; lia).
+  rewrite take_take. rewrite (slice_empty W 0 0) by lia. rewrite app_nil_r. f_equal. lia.
+Qed.
+
+Lemma h_setoffset_spec h F off h' x :
+  hwf h F -> h_closed h = false -> h_ro h = false -> h_setoffset h off = (h', x) ->
+  (h_offset h < off /\ h' = h /\ x = OErr) \/
+  (off <= h_offset h /\ x = OOk /\ hwf h' F /\ content h' F = take off (content h F) /\ same_cfg h h' /\
+   (h_fo h <= off -> h_fo h' = h_fo h /\ h_fl h' = h_fl h) /\
+   (off < h_fo h -> h_fo h' = off /\ h_fl h' = 0 /\ h_uw h' = 0)).
+Proof.
+  intros W CL RO E. unfold h_setoffset in E. rewrite CL, RO in E.
+  pose proof (len_content _ _ W) as LC.
+  destruct (N.ltb_spec (h_offset h) off) as [L0|L0].
+  { left. splits; auto; congruence. }
+  right.
+  destruct (N.eqb_spec off (h_offset h)) as [EQ|NE].
+  { assert (h' = h) by congruence. assert (x = OOk) by congruence. subst h' x.
+    splits; auto using same_cfg_refl.
+    - rewrite take_ge; auto. rewrite LC. clear - EQ. lia.
+    - intros LT. exfalso. unfold h_offset in EQ. clear - EQ LT. lia. }
+  destruct W. unfold h_offset in *.
+  destruct (N.leb_spec (h_fo h) off) as [L1|L1].
+  - assert (h' = h_set_buf h (h_wbuf h) (h_fl h) (h_uw h - (h_fo h + (h_uw h - h_fl h) - off))) by congruence.
+    assert (x = OOk) by congruence. subst h' x.
+    splits.
+    + exact L0.
+    + reflexivity.
+    + unfold h_set_buf. constructor; cbn [h_fo h_pos h_seek h_wbuf h_fl h_uw h_ro h_retry h_auto h_closed]; auto.
+      * clear - L0 L1 wf_fl0. lia.
+      * clear - wf_uw0. lia.
+      * intros X. congruence.
+    + unfold content, h_set_buf; cbn [h_fo h_fl h_uw h_wbuf]. apply take_content_mem; auto.
+    + unfold h_set_buf. constructor; reflexivity.
+    + intros _. split; reflexivity.
+    + intros LT. exfalso. clear - LT L1. lia.
+  - assert (h' = mkh off (h_pos h) true (h_wbuf h) 0 0 (h_ro h) (h_retry h) (h_auto h) (h_closed h)) by congruence.
+    assert (x = OOk) by congruence. subst h' x.
+    splits.
+    + exact L0.
+    + reflexivity.
+    + constructor; cbn [h_fo h_pos h_seek h_wbuf h_fl h_uw h_ro h_retry h_auto h_closed]; auto;
+        try (clear - L1 wf_fo0; lia); try (clear; lia); try (intros; discriminate);
+        try (intros X; congruence).
+    + unfold content; cbn [h_fo h_fl h_uw h_wbuf]. apply take_content_file; auto.
+    + constructor; reflexivity.
+    + intros LE. exfalso. clear - LE L1. lia.
+    + intros _. cbn [h_fo h_fl h_uw]. splits; reflexivity.
+Qed.
+
+(* ---------- SwitchToReadOnlyMode / Close ---------- *)
+Lemma h_switch_ro_spec h F h' F' x :
+  hwf h F -> h_closed h = false -> h_ro h = false -> h_switch_ro h F = (h', F', x) ->
+  x = OOk /\ hwf h' F' /\ content h' F' = content h F /\ h_ro h' = true /\ h_closed h' = false /\
+  h_fo h' = h_offset h.
+Proof.
+  intros W CL RO E. unfold h_switch_ro in E. rewrite CL, RO in E.
+  destruct (h_flush h F) as [h1 F1] eqn:EF.
+  destruct (h_flush_spec _ _ _ _ W EF) as (W1 & C1 & S1 & FO1 & U1 & RT1 & NR1).
+  assert (exists h2 F2, (if h_retry h1 then h_sync h1 F1 else (h1, F1)) = (h2, F2) /\
+            hwf h2 F2 /\ content h2 F2 = content h F /\ same_cfg h h2 /\ h_fo h2 = h_offset h /\
+            h_uw h2 = 0 /\ h_fl h2 = 0) as (h2 & F2 & E2 & W2 & C2 & S2 & FO2 & U2 & L2).
+  { destruct (h_retry h1) eqn:RT.
+    - destruct (h_sync h1 F1) as [h2 F2] eqn:ES. exists h2, F2.
+      destruct (h_sync_spec _ _ _ _ W1 ES) as (W2 & C2 & S2 & FO2 & U2 & RT2 & NR2).
+      destruct (RT2 RT). splits; auto; try congruence.
+      + eapply same_cfg_trans; eauto.
+      + rewrite FO2. unfold h_offset at 1. rewrite U1, FO1. clear. lia.
+    - exists h1, F1. assert (RT0 : h_retry h = false) by (destruct S1; congruence).
+      specialize (NR1 RT0). pose proof (wf_nr _ _ W1 RT) as Z. splits; auto. }
+  rewrite E2 in E.
+  assert (h' = mkh (h_fo h2) (h_pos h2) (h_seek h2) [] (h_fl h2) (h_uw h2) true (h_retry h2) (h_auto h2) (h_closed h2))
+    by congruence.
+  assert (F' = F2) by congruence. assert (x = OOk) by congruence. subst h' F' x.
+  destruct W2. splits; cbn [h_fo h_ro h_closed]; auto.
+  - constructor; cbn [h_fo h_pos h_seek h_wbuf h_fl h_uw h_ro h_retry h_auto h_closed]; auto;
+      try (rewrite U2, ?L2; change (len []) with 0; clear; lia); try (intros; discriminate);
+      try (rewrite L2; clear; lia).
+  - rewrite <- C2. unfold content; cbn [h_fo h_fl h_uw h_wbuf]. rewrite U2, L2.
+    rewrite !slice_empty by (clear; lia). reflexivity.
+  - destruct S2. congruence.
+Qed.
+
+Lemma h_close_spec h F h' F' x :
+  hwf h F -> h_closed h = false -> h_close h F = (h', F', x) ->
+  x = OOk /\ hwf h' F' /\ content h' F' = content h F /\ h_ro h' = h_ro h /\ h_closed h' = true /\
+  h_fo h' = h_offset h /\ h_uw h' = h_fl h' /\
+  h_retry h' = h_retry h /\ h_auto h' = h_auto h /\ len (h_wbuf h') = len (h_wbuf h) /\
+  (h_retry h = true -> h_fo h' - h_fl h' = h_fo h - h_fl h).
+Proof.
+  intros W CL E. unfold h_close in E. rewrite CL in E.
+  assert (exists h1 F1, (if h_ro h then (h, F) else h_flush h F) = (h1, F1) /\
+            hwf h1 F1 /\ content h1 F1 = content h F /\ same_cfg h h1 /\ h_fo h1 = h_offset h /\ h_uw h1 = h_fl h1 /\
+            (h_retry h = true -> h_fo h1 - h_fl h1 = h_fo h - h_fl h))
+    as (h1 & F1 & E1 & W1 & C1 & S1 & FO1 & U1 & RT1).
+  { destruct (h_ro h) eqn:RO.
+    - exists h, F. destruct (wf_ro _ _ W RO) as [A B]. splits; auto using same_cfg_refl.
+      + unfold h_offset. rewrite A, B. clear. lia.
+      + congruence.
+    - destruct (h_flush h F) as [h1 F1] eqn:EF. exists h1, F1.
+      destruct (h_flush_spec _ _ _ _ W EF) as (W1 & C1 & S1 & FO1 & U1 & RT1 & _). splits; auto.
+      intros RT. apply RT1; auto. }
+  rewrite E1 in E.
+  assert (h' = mkh (h_fo h1) (h_pos h1) (h_seek h1) (h_wbuf h1) (h_fl h1) (h_uw h1) (h_ro h1) (h_retry h1) (h_auto h1) true)
+    by congruence.
+  assert (F' = F1) by congruence. assert (x = OOk) by congruence. subst h' F' x.
+  destruct W1, S1. splits; cbn [h_fo h_ro h_closed h_uw h_fl]; auto.
+  constructor; cbn [h_fo h_pos h_seek h_wbuf h_fl h_uw h_ro h_retry h_auto h_closed]; auto.
+Qed.
+
+
+(* ---------- how far the file can grow ---------- *)
+Lemma h_flush_len h F h' F' :
+  hwf h F -> h_flush h F = (h', F') -> len F' = N.max (len F) (h_offset h).
+Proof.
+  intros W E. unfold h_flush in E. pose proof (wf_fo _ _ W) as A. pose proof (wf_fl _ _ W) as B.
+  pose proof (wf_uw _ _ W) as C. unfold h_offset.
+  destruct (N.eqb_spec (h_uw h - h_fl h) 0) as [Z|NZ].
+  - assert (F' = F) by congruence. subst. clear - A Z. lia.
+  - assert (Hpos : (if h_seek h then h_fo h else h_pos h) = h_fo h).
+    { destruct (h_seek h) eqn:S; auto. apply (wf_pos _ _ W); auto. }
+    rewrite Hpos in E.
+    assert (F' = fwrite F (h_fo h) (slice (h_wbuf h) (h_fl h) (h_uw h))) by (destruct (h_retry h); congruence).
+    subst F'. rewrite len_fwrite by exact A. rewrite len_slice. clear - A B C. lia.
+Qed.
+
+Lemma h_sync_len h F h' F' :
+  hwf h F -> h_sync h F = (h', F') -> len F' = N.max (len F) (h_offset h).
+Proof.
+  intros W E. unfold h_sync in E. destruct (h_flush h F) as [h1 F1] eqn:EF.
+  assert (F' = F1) by (destruct (h_retry h1); congruence). subst. eapply h_flush_len; eauto.
+Qed.
+
+Lemma h_offset_content h F h' F' c : hwf h F -> hwf h' F' -> content h' F' = content h F ++ c ->
+  h_offset h' = h_offset h + len c.
+Proof. intros W W' C. rewrite <- (len_content _ _ W), <- (len_content _ _ W'), C, len_app. reflexivity. Qed.
+
+Lemma h_write_step_len h F rest h2 F2 k :
+  hwf h F -> h_ro h = false -> 0 < len rest -> h_write_step h F rest = Some (h2, F2, k) ->
+  len F2 <= N.max (len F) (h_offset h2) /\ len F <= len F2.
+Proof.
+  intros W RO LR E.
+  pose proof (h_write_step_spec h F rest W RO LR) as ST. rewrite E in ST.
+  destruct ST as (W2 & C2 & _).
+  pose proof (h_offset_content _ _ _ _ _ W W2 C2) as OF.
+  unfold h_write_step in E.
+  destruct ((len (h_wbuf h) - h_uw h =? 0) && h_retry h && negb (h_auto h)); [discriminate|].
+  destruct (len (h_wbuf h) - h_uw h =? 0).
+  - destruct (h_retry h).
+    + destruct (h_sync h F) as [h1 F1] eqn:ES. pose proof (h_sync_len _ _ _ _ W ES) as L.
+      assert (F2 = F1) by congruence. subst. clear - L OF. lia.
+    + destruct (h_flush h F) as [h1 F1] eqn:ES. pose proof (h_flush_len _ _ _ _ W ES) as L.
+      assert (F2 = F1) by congruence. subst. clear - L OF. lia.
+  - assert (F2 = F) by congruence. subst. clear. lia.
+Qed.
+
+Lemma h_write_len fuel : forall h F rest n h' F' n' full,
+  hwf h F -> h_ro h = false ->
+  h_write fuel h F rest n = (h', F', n', full) ->
+  len F' <= N.max (len F) (h_offset h') /\ len F <= len F'.
+Proof.
+  induction fuel as [|fuel IH]; intros h F rest n h' F' n' full W RO E.
+  - simpl in E. assert (F' = F) by congruence. subst. clear. lia.
+  - cbn [h_write] in E.
+    destruct (N.eqb_spec (len rest) 0) as [Z|NZ]; [assert (F' = F) by congruence; subst; clear; lia|].
+    assert (LR : 0 < len rest) by (clear - NZ; lia).
+    pose proof (h_write_step_spec h F rest W RO LR) as ST.
+    destruct (h_write_step h F rest) as [[[h2 F2] k]|] eqn:ES; [|assert (F' = F) by congruence; subst; clear; lia].
+    destruct ST as (W2 & C2 & S2 & _).
+    destruct (h_write_step_len _ _ _ _ _ _ W RO LR ES) as [L1 L2].
+    assert (RO2 : h_ro h2 = false) by (destruct S2; congruence).
+    destruct (IH _ _ _ _ _ _ _ _ W2 RO2 E) as [L3 L4].
+    split; [|clear - L2 L4; lia].
+    (* offsets only grow along the loop *)
+    assert (MON : forall fuel h F rest n h' F' n' full, hwf h F -> h_ro h = false ->
+              h_write fuel h F rest n = (h', F', n', full) -> h_offset h <= h_offset h').
+    { clear. induction fuel as [|fuel IH]; intros h F rest n h' F' n' full W RO E.
+      - simpl in E. assert (h' = h) by congruence. subst. clear. lia.
+      - cbn [h_write] in E.
+        destruct (N.eqb_spec (len rest) 0) as [Z|NZ]; [assert (h' = h) by congruence; subst; clear; lia|].
+        assert (LR : 0 < len rest) by (clear - NZ; lia).
+        pose proof (h_write_step_spec h F rest W RO LR) as ST.
+        destruct (h_write_step h F rest) as [[[h2 F2] k]|] eqn:ES; [|assert (h' = h) by congruence; subst; clear; lia].
+        destruct ST as (W2 & C2 & S2 & _).
+        assert (RO2 : h_ro h2 = false) by (destruct S2; congruence).
+        pose proof (IH _ _ _ _ _ _ _ _ W2 RO2 E) as M.
+        pose proof (h_offset_content _ _ _ _ _ W W2 C2) as OF. clear - M OF. lia. }
+    pose proof (MON _ _ _ _ _ _ _ _ _ W2 RO2 E) as M. clear - L1 L3 M. lia.
+Qed.
+
+Lemma h_append_len h F bs h' F' x :
+  hwf h F -> h_append h F bs = (h', F', x) ->
+  len F' <= N.max (len F) (h_offset h') /\ len F <= len F'.
+Proof.
+  intros W E. unfold h_append in E.
+  destruct (h_closed h); [assert (F' = F) by congruence; subst; clear; lia|].
+  destruct (h_ro h) eqn:RO; [assert (F' = F) by congruence; subst; clear; lia|].
+  destruct (len bs =? 0); [assert (F' = F) by congruence; subst; clear; lia|].
+  destruct (h_write (length bs) h F bs 0) as [[[h1 F1] n1] full] eqn:EW.
+  assert (h' = h1) by congruence. assert (F' = F1) by congruence. subst.
+  eapply h_write_len; eauto.
+Qed.
+
+Lemma h_switch_ro_len h F h' F' x :
+  hwf h F -> h_switch_ro h F = (h', F', x) -> len F' = N.max (len F) (h_offset h) \/ F' = F.
+Proof.
+  intros W E. unfold h_switch_ro in E.
+  destruct (h_closed h); [right; congruence|]. destruct (h_ro h); [right; congruence|].
+  destruct (h_flush h F) as [h1 F1] eqn:EF.
+  pose proof (h_flush_len _ _ _ _ W EF) as L1.
+  destruct (h_flush_spec _ _ _ _ W EF) as (W1 & C1 & S1 & FO1 & U1 & _).
+  destruct (h_retry h1).
+  - destruct (h_sync h1 F1) as [h2 F2] eqn:ES. pose proof (h_sync_len _ _ _ _ W1 ES) as L2.
+    assert (F' = F2) by congruence. subst. left.
+    assert (h_offset h1 = h_offset h).
+    { rewrite <- (len_content _ _ W1), <- (len_content _ _ W), C1. reflexivity. }
+    clear - L1 L2 H. lia.
+  - assert (F' = F1) by congruence. subst. left. exact L1.
+Qed.
+
+Lemma h_close_len h F h' F' x :
+  hwf h F -> h_close h F = (h', F', x) -> len F' = N.max (len F) (h_offset h) \/ F' = F.
+Proof.
+  intros W E. unfold h_close in E.
+  destruct (h_closed h); [right; congruence|].
+  destruct (h_ro h); [right; congruence|].
+  destruct (h_flush h F) as [h1 F1] eqn:EF.
+  pose proof (h_flush_len _ _ _ _ W EF) as L1.
+  assert (F' = F1) by congruence. subst. left. exact L1.
+Qed.
+
+(* ---------- a handle that is only read through: open, nothing buffered, file ends at fileOffset ---------- *)
+Definition rdok (h : hnd) (F : bytes) : Prop :=
+  h_closed h = false /\ h_fo h = len F /\ h_uw h = h_fl h.
+
+Lemma rdok_read h F n off : rdok h F -> 0 < n -> h_readat h F n off = spec_read F n off.
+Proof.
+  intros (CL & FO & U) NP. unfold h_readat, h_readat_, spec_read, h_offset. rewrite CL, FO, U, N.sub_diag, N.add_0_r.
+  destruct (N.ltb_spec (len F) off) as [L|L]; [reflexivity|].
+  destruct (N.ltb_spec off (len F)) as [L1|L1].
+  - unfold freadat.
+    assert (LD : len (take n (drop off F)) = N.min n (len F - off)) by (rewrite len_take, len_drop; reflexivity).
+    rewrite LD. rewrite slice_plus.
+    destruct (N.ltb_spec 0 (n - N.min n (len F - off))) as [P|P].
+    + rewrite N.sub_0_r, N.min_0_r. cbn [N.ltb N.compare]. rewrite app_nil_r.
+      replace (N.min n (len F - off)) with (len F - off) by (clear - P; lia).
+      f_equal.
+      * rewrite slice_plus. rewrite (take_ge n) by (rewrite len_drop; clear - P; lia).
+        rewrite (take_ge (len F - off)) by (rewrite len_drop; clear; lia). reflexivity.
+      * clear - P L1.
+        destruct (N.eqb_spec 0 (n - (len F - off))); destruct (N.ltb_spec (len F - off) n); auto; lia.
+    + replace (N.min n (len F - off)) with n by (clear - P; lia). rewrite N.ltb_irrefl, slice_plus. reflexivity.
+  - change (len []) with 0. rewrite N.sub_0_r.
+    replace (0 <? n) with true by (symmetry; apply N.ltb_lt; exact NP).
+    replace (0 - (off - len F)) with 0 by (clear; lia). rewrite N.min_0_r. cbn [N.ltb N.compare app].
+    replace (len F - off) with 0 by (clear - L L1; lia). rewrite N.min_0_r, N.add_0_r.
+    rewrite slice_empty by (clear; lia).
+    f_equal. clear - NP. destruct (N.eqb_spec 0 n); destruct (N.ltb_spec 0 n); auto; lia.
 Qed.
